@@ -10,6 +10,7 @@ POOL = ["", " ", "'", '"', "'''", "((", "))", "1...", "...", "5...1", "-", "--1"
         "31.02.2020", "00.00.0000", "٣", "1,5", "1.000,5", "1..5", "１.５", "is valid", "format", "__class__", "None", "True",
         # audit round: layouts repeating a placeholder, no-break / ideographic blanks next to a name, a carriage return before a non-ASCII character, indented second line
         "DD.MM.DD", "hh:mm:mm", "YYYY-YYYY", "\xa0id", "id\xa0", "\u3000id", "id,\xa0name", "\xa0kind < 3", "id\r\u00e4", "1...\r\u00e4", "  1\n 2", " id", " kind < 3", "kind < 3 or nosuch > 1", "kind < 3 and exit()",
+        "kind < 3 or (lambda: exit(4))()", "kind" + " + 1" * 3000 + " > 0", "kind", "kind < 5 / (count - 1)",
         "x{99999999999}", "(" * 500 + "a" + ")" * 500, "\\\n kind < 3", "\\\nid"]
 GOOD_ROWS = {"delimited": ["1", "abc", "a", "1.5", "31.12.2020", "ab1", "a1", "k"], "fixed": ["12345", "abc", "        "], "excel": ["1", ""], "ods": ["1.5"]}
 
@@ -165,6 +166,48 @@ def unit_hostile_data():
             res.append(sweep("C10/hostile/containers truncated and bit-flipped: API raises only DataError, command line never answers 4", ccases(), ccheck, "bounded",
                              "delimited / fixed / ods / xlsx data files truncated and with one byte flipped at ~40 offsets each (200 in thorough), garbage bytes, undecodable bytes, zip archives whose central directory offset is wrong; through validio.rows and applications.main",
                              describe=lambda c: {"format": c[0], "fault": c[1], "offset": c[2]}, function="validio.rows / applications.main", unit="C10.hostile.data", props=["C10", "C06"]))
+            # data streams whose `name` is not a usable text (None: SpooledTemporaryFile; an int: TemporaryFile, standard input; empty): rows or a DataError whose text can be printed
+            def scases():
+                for fmt in ("delimited", "fixed", "ods"):
+                    for kind in ("none", "int", "empty", "bytes"):
+                        for damaged in (False, True): yield (fmt, kind, damaged)
+            def scheck(c):
+                fmt, kind, damaged = c
+                blob = good[fmt] if not damaged else {"delimited": b'1,"ab\n', "fixed": b"  1a", "ods": b"no zip"}[fmt]
+                class Named(io.BytesIO if fmt == "ods" else io.StringIO):
+                    pass
+                stream = Named(blob if fmt == "ods" else blob.decode("utf-8"))
+                stream.name = {"none": None, "int": 7, "empty": "", "bytes": b"data"}[kind]
+                cid = interface.Cid(cid_paths[fmt])
+                try: got = list(validio.rows(cid, stream, on_error="continue"))
+                except errors.DataError as e:
+                    try: str(e)
+                    except Exception as e2: return {"expected": "an error whose text can be printed", "observed": "str(error) raises %s: %s" % (type(e2).__name__, e2)}
+                    return None if damaged else {"expected": "the rows of the stream", "observed": repr(e)}
+                except Exception as e: return {"expected": "rows or a DataError", "observed": "%s: %s" % (type(e).__name__, str(e)[:100])}
+                return None if (damaged or len(got) == 2) else {"expected": "2 rows", "observed": got}
+            res.append(sweep("C10/hostile/data streams whose name is None, a number, empty or bytes", scases(), scheck, "bounded", "delimited / fixed / ods x 4 kinds of stream name x {good data, damaged data}",
+                             describe=lambda c: {"format": c[0], "stream.name": c[1], "damaged": c[2]}, function="validio.Reader.__init__ / errors.Location", unit="C10.hostile.data", props=["C10", "C04"]))
+            # writers: every encoding name a CID accepts either writes the rows or refuses them with a DataError
+            def wcases():
+                for fmt in ("delimited", "fixed"):
+                    for enc in ("idna", "punycode", "ascii", "utf-16", "utf-8-sig", "iso2022_jp", "hz", "cp037", "utf-7", "raw_unicode_escape", "unicode_escape"): yield (fmt, enc)
+            def wcheck(c):
+                fmt, enc = c
+                text = ("d,format,%s\nd,encoding,%s\nf,id,,,%sInteger\nf,name%s\n" % (fmt, enc, "3," if fmt == "fixed" else ",", ",,,3" if fmt == "fixed" else ""))
+                try: cid = interface.create_cid_from_string(text)
+                except errors.InterfaceError: return None
+                path = os.path.join(tmp, "w_%s.txt" % enc)
+                try:
+                    with validio.Writer(cid, path) as w:
+                        for row in (["1", "ab"], ["2", "\u00e4\u20ac"], ["3", "\udce9"], ["4", "cd"]):
+                            try: w.write_row(row)
+                            except errors.DataError: pass
+                except errors.DataError: pass
+                except Exception as e: return {"expected": "rows written or a DataError", "observed": "%s: %s" % (type(e).__name__, str(e)[:100])}
+                return None
+            res.append(sweep("C10/hostile/writing under every kind of encoding a CID accepts", wcases(), wcheck, "bounded", "delimited and fixed CIDs x 11 encodings x 4 rows (ASCII, non-ASCII, a lone surrogate)",
+                             describe=lambda c: {"format": c[0], "encoding": c[1]}, function="validio.Writer + rowio writers", unit="C10.hostile.data", props=["C10", "C14"]))
             if k6b:
                 res.append(Result("C10/K-6b witness: an absurdly large repeat count on an ODS cell ends in %s" % " / ".join(sorted({x[1] for x in k6b})), "bounded", FAILED, "native", finding="K-6b", cases=len(k6b), props=["C10"],
                                   detail=repr(k6b[0]), replay={"verdict": "confirmed", "input": {"format": "ods", "table:number-columns-repeated": k6b[0][0][2]}, "expected": "DataFormatError", "observed": k6b[0][1]}))
